@@ -132,6 +132,48 @@ theorem shared_roundtrip (fmt : Fmt) (vs : List Int) (arr : List UInt8) (pos : N
   obtain ⟨d, h1, _, h3, _⟩ := py_roundtrip fmt vs arr pos bs hp hr
   exact ⟨d, h1, h3⟩
 
+/-! ### devices that change their group
+
+A device can be put into a new sync group after it was laid out in another one (an application regrouping its
+devices, a group created again with one more device in front).  `SimulatedEBPF.__init__` collects the shared
+map anew for the new group; the positions live in the devices' `__dict__`s, which have seen the earlier layout. -/
+
+theorem collects_of_size (a : MapAttr) (progs : List Prog) (k : Key) (s : Nat)
+    (h : accessSizeOf (triples a.map progs) k = some s) : (⟨[a], progs⟩ : NewObj).collects k := by
+  obtain ⟨t, ht, hk, _⟩ := accessSizeOf_mem _ k s h
+  exact ⟨a, List.mem_cons_self, by rw [← hk]; exact positionOf_isSome _ t ht⟩
+
+/-- **regrouped_layout**: after any history of group creations, a group none of whose devices was put into a later
+group has every device variable exactly at the position of a layout from scratch -/
+theorem regrouped_layout (σ : Dicts) (before after : List NewObj) (a : MapAttr) (progs : List Prog)
+    (hlater : ∀ o' ∈ after, ∀ q' ∈ o'.progs, ∀ q ∈ progs, q'.id ≠ q.id) (k : Key) (s : Nat)
+    (h : accessSizeOf (triples a.map progs) k = some s) :
+    (runNews σ (before ++ ⟨[a], progs⟩ :: after)).get k = positionOf (triples a.map progs) k := by
+  rw [history_layout σ before after ⟨[a], progs⟩ k (collects_of_size a progs k s h) hlater, freshPos_single]
+
+/-- **regrouped_devices_disjoint**: however the process got there - devices laid out before in other groups, in
+another order, alone - variables of different devices of the group never share storage, and lie inside its array -/
+theorem regrouped_devices_disjoint (σ : Dicts) (before after : List NewObj) (a : MapAttr) (progs : List Prog)
+    (hlater : ∀ o' ∈ after, ∀ q' ∈ o'.progs, ∀ q ∈ progs, q'.id ≠ q.id)
+    (d₁ d₂ n₁ n₂ p₁ s₁ p₂ s₂ : Nat) (hd : d₁ ≠ d₂)
+    (h₁ : (runNews σ (before ++ ⟨[a], progs⟩ :: after)).get (d₁, n₁) = some p₁)
+    (z₁ : accessSizeOf (triples a.map progs) (d₁, n₁) = some s₁)
+    (h₂ : (runNews σ (before ++ ⟨[a], progs⟩ :: after)).get (d₂, n₂) = some p₂)
+    (z₂ : accessSizeOf (triples a.map progs) (d₂, n₂) = some s₂) :
+    (p₁ + s₁ ≤ p₂ ∨ p₂ + s₂ ≤ p₁) ∧ p₁ + s₁ ≤ total (triples a.map progs) := by
+  rw [regrouped_layout σ before after a progs hlater _ s₁ z₁] at h₁
+  rw [regrouped_layout σ before after a progs hlater _ s₂ z₂] at h₂
+  have r₁ := (rangeOf_eq _ _ p₁ s₁).2 ⟨h₁, z₁⟩
+  have r₂ := (rangeOf_eq _ _ p₂ s₂).2 ⟨h₂, z₂⟩
+  exact ⟨devices_disjoint_full_proved a.map progs d₁ d₂ n₁ n₂ p₁ s₁ p₂ s₂ hd r₁ r₂,
+         (collect_disjoint a.map progs).2.1 _ _ _ r₁⟩
+
+/-- the seeded scenario: device 1 was laid out alone (its `I` at 4, behind the group's `wkc_errors`... at 0 here),
+then a new group lists device 2 (`Q`) in front of it: device 1 moves behind device 2's variable -/
+example : (runNews [] [⟨[⟨0, 0⟩], [⟨100, [[⟨50, 0, .arr false 1 .I⟩]]⟩, ⟨1, [[⟨0, 0, .arr false 1 .I⟩]]⟩]⟩,
+    ⟨[⟨0, 0⟩], [⟨101, [[⟨50, 0, .arr false 1 .I⟩]]⟩, ⟨2, [[⟨0, 0, .arr false 1 .Q⟩]]⟩, ⟨1, [[⟨0, 0, .arr false 1 .I⟩]]⟩]⟩]).get (1, 0)
+    = some 12 := by decide
+
 /-! ### the code before the repair -/
 
 /-- group (id 0) with `wkc_errors:'I'` (name 50); device 1 of class `D1(D0)`, `D0` declares `a:'B', b:'B'`,
